@@ -45,7 +45,7 @@ prop("C22",
      residual="printing of A1/R1C1 addresses (format!) and sheet-name quoting read back by the lexer are string code outside Verus' reach")
 
 prop("C11",
-     units=["colcodec", "fmtpanic", "lexpanic", "refparse", "fmtlex", "cursor", "f4", "dates"],
+     units=["colcodec", "fmtpanic", "lexpanic", "refparse", "fmtlex", "cursor", "f4", "dates", "argidx"],
      scans=["chrono-panicking-ops"],
      level="proof",
      claim="no panic (overflow, index, unwrap, division) in the listed text-consuming functions for ANY input string",
